@@ -63,7 +63,7 @@ def make_script(rng):
             elif c == 2:
                 k = rng.range(1, 4)
                 fr = " ".join("%d %d" % (rng.choice(W.FREQS), rng.choice(W.FREQS)) for _ in range(k))
-                ops.append(("ctrl", i, W.cmd("CMD SETFH %d %d %s" % (rng.choice([0, 1, 17, 63]), rng.below(4), fr))))
+                ops.append(("ctrl", i, W.cmd("CMD SETFH %d %d %s" % (rng.choice([0, 1, 17, 63, 63, 64, -1, 100]), rng.below(4), fr))))      # incl. rejected ones (HSN outside 0..63): no effect
             elif c == 3:
                 ops.append(("ctrl", i, W.cmd("CMD POWEROFF")))
             elif c == 4:
